@@ -365,6 +365,11 @@ class PhasedGen(Gen):
         self.cancel_frac = rng.choice([0.0, 0.2, 0.4])
         self.mid = rng.choice([0.0, 0.1, 0.25])       # extra cancels / flushes while releasing
         self.total = 0
+        # several cycles on the same pool: what an earlier cycle left behind (a flush that raised, cancelled groups
+        # whose names are used again, rejected requests, swallowed cancellations) is the history of the next one
+        self.cycles = rng.choice([1, 1, 2, 3])
+        self.cycle = 0
+        self.all_calls = self.calls
 
     def make_config(self):
         rng = self.rng
@@ -400,11 +405,14 @@ class PhasedGen(Gen):
 
     def next_step(self, sim):
         self.total += 1
-        if self.total > 140 or sim.hit_cap:
+        if self.total > 140 * self.cycles or sim.hit_cap:
             return None
         while not self.queue:
             if self.phase > 6:
-                return None
+                self.cycle += 1
+                if self.cycle >= self.cycles or sim.pools[0].closed:
+                    return None
+                self.phase = 0
             getattr(self, "_phase%d" % self.phase)(sim)
         return self.queue.pop(0)
 
@@ -418,6 +426,23 @@ class PhasedGen(Gen):
     def _phase0(self, sim):
         rng = self.rng
         pc = sim.pools[0]
+        last = self.cycle == self.cycles - 1
+        # the pool is only closed in the last cycle
+        self.calls = self.all_calls if last else ([c for c in self.all_calls if c == "flush"] or ["flush"])
+        if self.cycle and rng.random() < 0.4:
+            # between cycles: a request that is rejected, an unknown id, a lock/unlock pair
+            self.label += 1
+            self.queue.append(rng.choice([
+                {"op": "cancel", "p": 0, "ids": [["raw", rng.choice([-1, 999, 0])]]},
+                {"op": "cancel_group", "p": 0, "name": "nope"},
+                {"op": "lock", "p": 0},
+                {"op": "bad_pool", "p": 0, "v": -1}]))
+            if self.queue[-1]["op"] == "lock":
+                if pc.cls == "S":
+                    self.queue.append({"op": "spawn", "p": 0, "r": self.label, "kind": "start", "num": 2})
+                else:
+                    self.queue.append({"op": "spawn", "p": 0, "r": self.label, "kind": "map", "elems": [0, 0], "nc": 1, "sc": [{"g": 1}]})
+                self.queue.append({"op": "unlock", "p": 0})
         for _ in range(rng.choice([1, 2, 2, 3])):
             self.label += 1
             if pc.cls == "S":
@@ -433,6 +458,8 @@ class PhasedGen(Gen):
             else:
                 st["elems"] = [0] * rng.choice([1, 2, 3, 4])
                 st["nc"] = rng.choice([1, 2, 3])
+            if rng.random() < 0.3:
+                st["gn"] = rng.choice(["g1", "g2", "g1", "apply-work-group-0", "map-job-group-1"])   # names come back in later cycles
             self.queue.append(st)
         self.queue.append({"op": "idle"})
         self.phase = 1
@@ -447,7 +474,10 @@ class PhasedGen(Gen):
             if r < self.early and t.inv is not None:
                 self.queue.append(self._gate_step(("w", t.req.label, t.inv.idx, t.inv.gate_no)))
             elif r < self.early + self.cancel_frac:
-                self.queue.append({"op": "cancel", "p": 0, "ids": [self._task_ref(t)]})
+                if rng.random() < 0.3 and t.req.kind != "start":
+                    self.queue.append({"op": "cancel_group", "p": 0, "r": t.req.label})
+                else:
+                    self.queue.append({"op": "cancel", "p": 0, "ids": [self._task_ref(t)]})
             if rng.random() < 0.3:
                 self.queue += self._pause()
         self.queue += self._pause() or [{"op": "run", "n": 2}]
